@@ -119,6 +119,10 @@ def cls_facts(v):
             z3.Implies(is_tup(v), ucls(v) == K['tuple']),
             z3.Implies(is_lst(v), ucls(v) == K['list']),
             z3.Implies(ucls(v) == K['NoneType'], is_none(v)),
+            z3.Implies(ucls(v) == K['int'], is_intv(v)),         # subclasses of the scalar builtins are not modelled
+            z3.Implies(ucls(v) == K['bool'], is_boolv(v)),
+            z3.Implies(ucls(v) == K['float'], is_realv(v)),
+            z3.Implies(ucls(v) == K['str'], is_strv(v)),
             z3.Implies(z3.Or(ucls(v) == K['tuple']), is_tup(v)),
             z3.Implies(z3.Or(ucls(v) == K['list']), is_lst(v))]
 
